@@ -49,6 +49,16 @@ def proc_work(x):
     return ('f', token, os.getpid() != 0)
 
 
+def any_work(x):
+    """Accepts any element value."""
+    return ('w', type(x).__name__, repr(x)[:40])
+
+
+async def any_work_async(x):
+    await asyncio.sleep(0)
+    return ('w', type(x).__name__, repr(x)[:40])
+
+
 def proc_work_kw(x, *, tag='t'):
     token, dur, fail = x
     if dur:
@@ -70,18 +80,41 @@ async def async_work(x):
 
 
 class Unpicklable:
-    """A value that travels fine between threads and fails, deterministically, at the first process boundary."""
+    """A value that travels fine between threads and fails, deterministically, at the first process boundary -- with the error class a
+    pickling attempt may end in: PicklingError (lambdas, local classes), RuntimeError / ValueError (an object whose __reduce__ /
+    __getstate__ refuses: connections, handles), RecursionError (deep nesting)."""
+
+    def __init__(self, kind='pickling'):
+        self.kind = kind
 
     def __reduce__(self):
         import pickle
 
-        raise pickle.PicklingError('vf-unpicklable')
+        cls = {'pickling': pickle.PicklingError, 'runtime': RuntimeError, 'recursion': RecursionError, 'value': ValueError, 'notimpl': NotImplementedError}[self.kind]
+        raise cls('vf-unpicklable')
 
     def __repr__(self):
-        return 'Unpicklable()'
+        return f'Unpicklable({self.kind!r})'
 
 
 UNPICKLABLE = Unpicklable()
+
+
+def _refuse_to_load(kind):
+    raise {'value': ValueError, 'type': TypeError, 'runtime': RuntimeError, 'import': ImportError}[kind]('vf-unloadable')
+
+
+class Unloadable:
+    """Pickles fine; cannot be rebuilt by the receiver (a constructor that validates, a resource that exists only in the sender ...)."""
+
+    def __init__(self, kind='value'):
+        self.kind = kind
+
+    def __reduce__(self):
+        return (_refuse_to_load, (self.kind,))
+
+    def __repr__(self):
+        return f'Unloadable({self.kind!r})'
 
 
 def ident(x):
